@@ -84,11 +84,40 @@ def impl_header(u, rel, impl_rx, fn_name):
 
 
 def emit_method(u, rel, impl_rx, name, key, prep=None, contracted=True, tags=None):
-    f = u.get_fn(rel, name, impl=impl_rx)
-    if prep:
-        prep(f)
-    u.emit_fn(f, key, wrap=(impl_header(u, rel, impl_rx, name), '}'), contracted=contracted, tags=tags)
-    return f
+    return guarded(u, key, lambda: u.get_fn(rel, name, impl=impl_rx), prep,
+                   wrap=lambda: (impl_header(u, rel, impl_rx, name), '}'), contracted=contracted, tags=tags)
+
+
+def emit_free_fn(u, rel, name, key, prep=None, contracted=True, tags=None, outer=None):
+    return guarded(u, key, lambda: u.get_fn(rel, name, outer=outer), prep, wrap=lambda: None, contracted=contracted, tags=tags)
+
+
+def guarded(u, key, getter, prep, wrap, contracted=True, tags=None):
+    """Extract + rewrite + splice one item.  A lost anchor confined to this item (rewrite rule without a
+    match, loop the overlay names is gone, ...) turns the item into a contract-only stub: the rest of the
+    unit is still verified and this item's obligations are reported undecided."""
+    try:
+        f = getter()
+        if key in u.stub_items:
+            u.emit_fn(f, key, wrap=wrap(), contracted=contracted, tags=tags)
+            return f
+        if prep:
+            prep(f)
+        snapshot = (list(u.chunks), list(u.items), dict(u.rewrites))
+        try:
+            u.emit_fn(f, key, wrap=wrap(), contracted=contracted, tags=tags)
+        except LostAnchor:
+            u.chunks[:], u.items[:] = snapshot[0], snapshot[1]
+            raise
+        return f
+    except LostAnchor as e:
+        if not contracted:
+            raise
+        f = getter()          # the signature must still be there; otherwise the whole unit is lost
+        u.stub_items[key] = 'lost anchor: %s' % e
+        u.lost[key] = str(e)
+        u.emit_fn(f, key, wrap=wrap(), contracted=contracted, tags=tags)
+        return f
 
 
 def inspect_to_if(f, u):
